@@ -89,6 +89,17 @@ CLAIMED = {
         design_ref="DESIGN.md section 5 C11",
         note="Trusted: TLC, the adapter's table of concrete bad inputs per cell (cells without rendering are counted as not applicable), "
              "the fingerprint's completeness (cssText + rule/property/selector/media/namespace lists)."),
+    "C20": dict(
+        technique="TLA+ decision table (EncutilsContract: ExpectedEncoding / ExpectedMismatch / Sniff written from the documented "
+                  "rules) enumerated completely by TLC (Encutils.tla, table totality checked); each row executed against "
+                  "encutils.getEncodingInfo / detectXMLEncoding / encodingByMediaType with stub responses; TLC trace monitor",
+        text="Exhaustive: all 2048 rows of media-type class x transport charset x XML declaration/BOM x meta x text/bytes, 48 sniffer "
+             "rows (string, positioned stream, bytes) and 8 media-type rows; TLC compares encoding, mismatch and the three per-source "
+             "encodings (lower case) with the table and checks the stream position is untouched.",
+        design_ref="DESIGN.md section 5 C20",
+        note="Trusted: TLC, the transcription of the documented rules into the TLA+ operators (independent of encutils' chain of ifs). "
+             "Responses without Content-Type header, missing response objects and documents shorter than four characters are "
+             "outside the table (statement silent / pinned otherwise by the existing tests)."),
 }
 PENDING = "check not built yet in this round (see DESIGN.md section 10 build order); no claim is made"
 NOT_APPLICABLE = {}
